@@ -346,7 +346,9 @@ func refParseValue(b []byte) (*MV, bool) {
 }
 
 func checkMarshalRoot(r *Run, o *simObj, what string) {
-	out, err := MarshalRoot(o.pj)
+	how := r.C.Intn("marshalvia", 3)
+	what += []string{" (fresh Iter)", " (Iter after Advance)", " (Iter after AdvanceInto)"}[how]
+	out, err := MarshalRootVia(o.pj, how)
 	nonFinite := hasNonFinite(o.model)
 	if err != nil {
 		var wp *WalkPanic
